@@ -388,13 +388,18 @@ func parseProposalAnswer(str string, props []*Proposal, l *log.Logger) error {
 			}
 			prop.answer = Defer
 		case 'A', 'a', '!':
-			idx := strings.LastIndexAny(str, "0123456789")
-			if idx < 0 {
+			// The offset is the run of digits following the answer character. Answers for the
+			// remaining proposals (possibly with offsets of their own) follow it.
+			n := 0
+			for n < len(str) && str[n] >= '0' && str[n] <= '9' {
+				n++
+			}
+			if n == 0 {
 				return errors.New("Got offset request without offset index")
 			}
 			prop.answer = Accept // Offset is not implemented as a ProposalAnswer
-			prop.offset, _ = strconv.Atoi(str[:idx+1])
-			str = str[idx+1:]
+			prop.offset, _ = strconv.Atoi(str[:n])
+			str = str[n:]
 
 			if prop.offset > ProtocolOffsetSizeLimit { // RMS Express does this (in Winmor P2P for sure)
 				prop.offset = 0
